@@ -291,3 +291,46 @@ func (t *Timer) Stop() bool {
 	t.stopped.closed = true
 	return true
 }
+
+// Pool replaces sync.Pool with its specification rather than its
+// implementation: Get may hand back *any* object that was Put and not yet taken,
+// or none of them (New is called, or nil returned) -- which one is a choice the
+// explorer enumerates. Put and Get are scheduling points chained on the pool.
+type Pool struct {
+	New   func() interface{}
+	items []interface{}
+	k     byte
+}
+
+func (p *Pool) Get() interface{} {
+	if S == nil || S.aborting {
+		if n := len(p.items); n > 0 {
+			x := p.items[n-1]
+			p.items = p.items[:n-1]
+			return x
+		}
+	} else {
+		atomicPoint(unsafe.Pointer(&p.k), 4)
+		if n := len(p.items); n > 0 {
+			if c := Choose(n+1, "pool.Get"); c < n {
+				x := p.items[c]
+				p.items = append(p.items[:c:c], p.items[c+1:]...)
+				return x
+			}
+		}
+	}
+	if p.New != nil {
+		return p.New()
+	}
+	return nil
+}
+
+func (p *Pool) Put(x interface{}) {
+	if x == nil {
+		return
+	}
+	if S != nil && !S.aborting {
+		atomicPoint(unsafe.Pointer(&p.k), 5)
+	}
+	p.items = append(p.items, x)
+}
